@@ -476,6 +476,17 @@ fn step(st: &mut St, t: &[&str]) -> Option<String> {
                 Err(_) => Some("err".into()),
             }
         }
+        ["X", "rewind", x] => {
+            // the provided methods of std::io::Seek, in case the impl overrides them
+            match st.xs.get_mut(*x)?.rewind() {
+                Ok(()) => Some(st.xs.get(*x)?.position().to_string()),
+                Err(_) => Some("err".into()),
+            }
+        }
+        ["X", "spos", x] => match st.xs.get_mut(*x)?.stream_position() {
+            Ok(p) => Some(p.to_string()),
+            Err(_) => Some("err".into()),
+        },
         ["X", "clone", x, x2] => {
             let r = st.xs.get(*x)?.clone();
             st.xs.insert(x2.to_string(), r);
@@ -688,7 +699,7 @@ fn step(st: &mut St, t: &[&str]) -> Option<String> {
             // optional mode (default keyed): in `hash` mode the secret is the input itself, in `derive` mode the context too
             let mode = match rest {
                 [] => "keyed",
-                [m] if ["hash", "keyed", "derive"].contains(m) => *m,
+                [m] if ["hash", "keyed", "keyedz", "derive"].contains(m) => *m,
                 _ => return None,
             };
             let snaps: Vec<(Vec<u8>, Vec<u8>)> = (1..=4u64).map(|seed| zero_snap(kind, mode, len, extra, seed)).collect::<Option<Vec<_>>>()?;
@@ -772,7 +783,19 @@ fn zero_snap(kind: &str, mode: &str, len: usize, extra: usize, seed: u64) -> Opt
     fn raw<T>(h: &T) -> Vec<u8> {
         unsafe { std::slice::from_raw_parts(h as *const T as *const u8, std::mem::size_of::<T>()) }.to_vec()
     }
-    let key: [u8; 32] = pat(32, seed.wrapping_mul(77)).try_into().ok()?;
+    let mut key: [u8; 32] = pat(32, seed.wrapping_mul(77)).try_into().ok()?;
+    if mode == "keyedz" {
+        // unusual but legal keys: all zero, all ones, a single set bit (the fourth stays random)
+        match seed {
+            1 => key = [0u8; 32],
+            2 => key = [0xffu8; 32],
+            3 => {
+                key = [0u8; 32];
+                key[31] = 1;
+            }
+            _ => {}
+        }
+    }
     let mut h = match mode {
         "hash" => blake3::Hasher::new(),
         "derive" => blake3::Hasher::new_derive_key(&format!("verif zeroscan context {}", seed)),
@@ -880,6 +903,23 @@ fn conv_step(t: &[&str]) -> Option<String> {
             let mut v = vec![0u8; n];
             v[..head.len()].copy_from_slice(&head);
             Some(match blake3::Hash::from_hex(&v) {
+                Ok(h) => hex(h.as_bytes()),
+                Err(e) => format!("err:{:?}", e),
+            })
+        }
+        ["fromhexre", s1, s2] => {
+            // from_hex is generic over AsRef<[u8]>: an argument whose as_ref() shows s1 at the first look and s2 afterwards
+            // (a refilled buffer behind interior mutability - safe code).  The code looks once, so the result is that of s1.
+            struct Refill(Vec<u8>, Vec<u8>, std::cell::Cell<usize>);
+            impl AsRef<[u8]> for Refill {
+                fn as_ref(&self) -> &[u8] {
+                    let k = self.2.get();
+                    self.2.set(k + 1);
+                    if k == 0 { &self.0 } else { &self.1 }
+                }
+            }
+            let arg = Refill(unhex(s1)?, unhex(s2)?, std::cell::Cell::new(0));
+            Some(match blake3::Hash::from_hex(&arg) {
                 Ok(h) => hex(h.as_bytes()),
                 Err(e) => format!("err:{:?}", e),
             })
